@@ -25,6 +25,7 @@ type VerifC15Round struct {
 	P     *Processor
 	Party *SignParty
 	r0    *round0
+	life  *verifC15Life
 	last  *round1 // the round1 seen by GenerateBlock (the party drops its rounds when it completes)
 }
 
